@@ -182,6 +182,9 @@ def invariant(stats, m, sub, big=False):
     cur = build(m)
     seen = {}
     last = None
+    stutter = 0
+    worst_stutter = 0.0
+    sz = s
     rewrites = 0
     steps = 0
     final = None
@@ -189,6 +192,16 @@ def invariant(stats, m, sub, big=False):
         while True:
             mod = to_model(cur)
             c = M.digest(M.canon(mod))
+            if c == last:
+                stutter += 1
+                if stutter > 2 * sz + 10:
+                    raise violation(ID, sub, f"no-progress:{m[0]}", case,
+                                    f"{what} ({s} nodes): {stutter} consecutive steps (up to step {steps}) returned the same {sz}-node form "
+                                    f"{M.text(mod)[:200]} without reaching the fully-reduced flag (a step that changes nothing may only "
+                                    f"propagate flags, at most once per node)")
+            else:
+                worst_stutter = max(worst_stutter, stutter / float(sz + 1)) if last is not None else 0.0
+                stutter = 0
             if c != last:
                 if c in seen:
                     raise violation(ID, sub, f"cycle:{m[0]}", case,
@@ -221,6 +234,9 @@ def invariant(stats, m, sub, big=False):
         return
     stats.count("steps", steps)
     stats.count("rewrites", rewrites)
+    worst_stutter = max(worst_stutter, stutter / float(sz + 1))
+    if worst_stutter > 1.0:
+        stats.count("stutter-above-one-per-node")      # observed: never on the unchanged tree (bound used: 2 per node + 10)
     stats.ratio(steps / float(step_bound), f"{what} steps={steps} s={s}")
     # rule-free: a fresh copy of the final form must reach the flag without any structural change
     tr2 = T.drive(fresh(final), limit=M.size(final) * 3 + 20, normal_form=False)
